@@ -1,4 +1,5 @@
 import ErdosVerif.Lemmas.SimLedgerRunDefs
+import ErdosVerif.Lemmas.LedgerByName
 /-!
 The batch part of the worker invariant: `Worker.BOK` — the live batches, their members, the
 placeholder computation of each batch and its ledger entry — preserved by every worker operation
@@ -585,6 +586,58 @@ theorem lk_stepProfiles (w : Worker) (dt : Int) (h : w.LOK) : (w.stepProfiles dt
   ⟨lr_stepProfiles w dt h.1, lb_stepProfiles w dt h.2⟩
 theorem lk_getAllocated (w : Worker) (t : Nat) (h : w.LOK) : (w.getAllocated t).1.LOK :=
   ⟨lr_getAllocated w t h.1, lb_getAllocated w t h.2 h.1⟩
+
+/-- **Under the invariant `Worker.remove_task` of a resident task never raises** (the ledger entry
+of the task / of its batch's placeholder exists, the batch maps know the task). -/
+theorem removeTask_ok_of_LOK (w : Worker) (t : Nat) (s : Strategy) (h : w.LOK) (hs : AList.get? w.placed t = some s) :
+    (w.removeTask t).2 = .ok := by
+  unfold removeTask
+  rw [hs]
+  simp only []
+  split
+  · rename_i hb
+    obtain ⟨ms, hms, hmem⟩ := h.2.memBatch t s hs hb
+    obtain ⟨g, l, s0, hbg, hl, _⟩ := h.2.batchHeld s.sid ms hms
+    rw [hms]
+    simp only []
+    have hc : ms.contains t = true := by simpa using hmem
+    simp only [hc, Bool.not_true, Bool.false_eq_true, if_false]
+    split
+    · rw [hbg]
+      simp only []
+      simp only [Resources.deallocate, hl]
+    · rfl
+  · rename_i hb
+    obtain ⟨l, hl, _⟩ := h.1.taskHeld t s hs (by simpa using hb)
+    simp only [Resources.deallocate, hl]
+
+/-- **A refused `Worker.remove_task` changes nothing** — for batch members too, under the invariant
+(`C04.refusal_noop_remove_partial` covers non-batch tasks without the invariant). -/
+theorem removeTask_refused_of_LOK (w : Worker) (t : Nat) (h : w.LOK) (hr : (w.removeTask t).2 ≠ .ok) :
+    (w.removeTask t).1 = w := by
+  cases hs : AList.get? w.placed t with
+  | none => unfold removeTask; rw [hs]
+  | some s => exact absurd (removeTask_ok_of_LOK w t s h hs) hr
+
+/-! Whatever the outcome: -/
+
+theorem lka_placeTask (w : Worker) (t : Nat) (s : Strategy) (h : w.LOK) (hn : t ∉ AList.keys w.placed) :
+    (w.placeTask t s).1.LOK := by
+  by_cases hok : (w.placeTask t s).2 = .ok
+  · exact lk_placeTask w t s h hn hok
+  · rw [placeTask_refused w t s h.1.rinv hok]; exact h
+theorem lka_removeTask (w : Worker) (t : Nat) (h : w.LOK) : (w.removeTask t).1.LOK := by
+  by_cases hok : (w.removeTask t).2 = .ok
+  · exact lk_removeTask w t h hok
+  · rw [removeTask_refused_of_LOK w t h hok]; exact h
+theorem lka_loadProfile (w : Worker) (p : Nat) (s : Strategy) (h : w.LOK) : (w.loadProfile p s).1.LOK := by
+  by_cases hok : (w.loadProfile p s).2 = .ok
+  · exact lk_loadProfile w p s h hok
+  · rw [loadProfile_refused w p s h.1.rinv hok]; exact h
+theorem lka_evictProfile (w : Worker) (p : Nat) (h : w.LOK) : (w.evictProfile p).1.LOK := by
+  by_cases hok : (w.evictProfile p).2 = .ok
+  · exact lk_evictProfile w p h hok
+  · rw [evictProfile_refused w p hok]; exact h
 
 end Worker
 end ErdosVerif.Model
